@@ -273,6 +273,9 @@ class Overlay:
                 elif d[0] == 'r7':
                     fn['r7'].append(int(d[1]))
                     cur = None
+                elif d[0] == 'r9':
+                    fn['r9'] = True
+                    cur = ('fn-spec-ignore', None)
                 elif d[0] == 'at':
                     # @@at <n> before|after | anchor text
                     at = {'n': int(d[1]), 'where': d[2], 'anchor': s[2:].split('|', 1)[1].strip(), 'text': ''}
@@ -545,6 +548,31 @@ class Assembler:
                         j = e
                     else:
                         self.errors.append('R8: unsupported .iter().filter_map() shape in %s' % qual)
+                j += 1
+        # R9 `RECV.map(|..| ..)` -> `vf_iter_map(RECV, |..| ..)` in functions that ask for it (`@@r9` in the overlay): Verus has no
+        # specification for the provided method Iterator::map; the helper is that very call behind an ASSUMED contract
+        if cfg['mode'] != 'external_body' and cfg.get('r9'):
+            j = it.body_open
+            while j < it.body_close - 3:
+                if toks[j].text == '.' and toks[j + 1].text == 'map' and toks[j + 2].text == '(' and toks[j + 3].text == '|':
+                    c = match_close(toks, j + 2)
+                    q = j - 1
+                    depth = 0
+                    while q > it.body_open:
+                        t2 = toks[q]
+                        if t2.kind == 'punct' and t2.text in ')]}':
+                            depth += 1
+                        elif t2.kind == 'punct' and t2.text in '([{':
+                            if depth == 0:
+                                break
+                            depth -= 1
+                        elif t2.kind == 'punct' and t2.text == ';' and depth == 0:
+                            break
+                        q -= 1
+                    edits.append((toks[q + 1].start, 0, 'vf_iter_map('))
+                    edits.append((toks[j].start, toks[j + 2].end - toks[j].start, ', '))
+                    rules.append('R9')
+                    j = c
                 j += 1
         # R1 closure `|_|`
         for j in range(it.body_open, it.body_close - 2):
